@@ -37,10 +37,10 @@ theorem isDefused_iff_applies (m : Mode) (b : BaseClass) : isDefused m b = true 
 /-! ## the decision table of `open` -/
 
 /-- The stream reaches the parser without a scan exactly when defusing does not apply —
-    for every mode, base class and channel (seekable or not, raw/buffered/text, with or without
-    URL and custom opener). -/
-theorem plan_noDefuse_iff (m : Mode) (b : BaseClass) (ch : Chan) :
-    plan m b ch = .noDefuse ↔ isDefused m b = false := by
+    for every mode, base class and channel (seekable or not, raw/buffered/text/other, with or without
+    URL and custom opener), on the tree as it is and with the repairs. -/
+theorem plan_noDefuse_iff (v : Variant) (m : Mode) (b : BaseClass) (ch : Chan) :
+    plan v m b ch = .noDefuse ↔ isDefused m b = false := by
   unfold plan
   cases hd : isDefused m b <;> simp
   repeat' split
@@ -49,69 +49,78 @@ theorem plan_noDefuse_iff (m : Mode) (b : BaseClass) (ch : Chan) :
 /-- When defusing applies, a document that must be refused never reaches the parser, on any
     channel: the outcome is the forbidden-resource error or (on channels that cannot be defused
     at all) a resource OS error raised before anything is parsed. -/
-theorem defused_entities_never_parsed (m : Mode) (b : BaseClass) (ch : Chan) (scanEnd bufLen : Nat)
-    (h : isDefused m b = true) : outcome (plan m b ch) true scanEnd bufLen ≠ .parsed := by
-  have hp : plan m b ch ≠ .noDefuse := fun e => by have := (plan_noDefuse_iff m b ch).mp e; simp [h] at this
-  cases hpl : plan m b ch <;> simp_all [outcome]
+theorem defused_entities_never_parsed (v : Variant) (m : Mode) (b : BaseClass) (ch : Chan) (scanEnd bufLen : Nat)
+    (h : isDefused m b = true) : outcome (plan v m b ch) true scanEnd bufLen ≠ .parsed := by
+  have hp : plan v m b ch ≠ .noDefuse := fun e => by have := (plan_noDefuse_iff v m b ch).mp e; simp [h] at this
+  cases hpl : plan v m b ch <;> simp_all [outcome]
 
 /-- … and it is the forbidden-resource error on every channel except the one that `open`
-    refuses outright (non-seekable stream that is neither raw nor buffered and has no URL). -/
-theorem defused_entities_forbidden (m : Mode) (b : BaseClass) (ch : Chan) (scanEnd bufLen : Nat)
-    (h : isDefused m b = true) (hr : plan m b ch ≠ .refuse) :
-    outcome (plan m b ch) true scanEnd bufLen = .forbidden := by
-  have hp : plan m b ch ≠ .noDefuse := fun e => by have := (plan_noDefuse_iff m b ch).mp e; simp [h] at this
-  cases hpl : plan m b ch <;> simp_all [outcome]
+    refuses outright (see `plan_refuse_iff`). -/
+theorem defused_entities_forbidden (v : Variant) (m : Mode) (b : BaseClass) (ch : Chan) (scanEnd bufLen : Nat)
+    (h : isDefused m b = true) (hr : plan v m b ch ≠ .refuse) :
+    outcome (plan v m b ch) true scanEnd bufLen = .forbidden := by
+  have hp : plan v m b ch ≠ .noDefuse := fun e => by have := (plan_noDefuse_iff v m b ch).mp e; simp [h] at this
+  cases hpl : plan v m b ch <;> simp_all [outcome]
 
-/-- The refusing channel is exactly: not seekable, and (neither raw nor buffered, or a custom
-    opener with a URL) and no URL to open a second time. -/
-theorem plan_refuse_iff (m : Mode) (b : BaseClass) (ch : Chan) :
-    plan m b ch = .refuse ↔
-      isDefused m b = true ∧ ch.seekable = false ∧ ch.hasUrl = false ∧ ch.io = .other := by
+/-- The refusing channel is exactly: not seekable, no URL to open a second time, and a stream that
+    `defuse_xml` cannot wrap in a replay reader. -/
+theorem plan_refuse_iff (v : Variant) (m : Mode) (b : BaseClass) (ch : Chan) :
+    plan v m b ch = .refuse ↔
+      isDefused m b = true ∧ ch.seekable = false ∧ ch.hasUrl = false ∧ wrappable v ch.io = false := by
   obtain ⟨sk, io, op, url⟩ := ch
   unfold plan
-  cases hd : isDefused m b <;> cases sk <;> cases io <;> cases op <;> cases url <;> simp
+  cases hd : isDefused m b <;> cases sk <;> cases hw : wrappable v io <;> cases op <;> cases url <;> simp
+  all_goals (repeat' split) <;> simp_all [wrappable]
+
+/-- on the tree as it is the refusing channel is: non-seekable text streams (C13-F3) and non-seekable
+    objects outside the io class hierarchy; with the repair of C13-F3 only the latter -/
+theorem unwrappable_iff (v : Variant) (io : IoKind) :
+    wrappable v io = false ↔ io = .other ∨ (io = .text ∧ v.wrapText = false) := by
+  cases io <;> cases h : v.wrapText <;> simp [wrappable, h]
 
 /-- Where defusing does not apply the document always reaches the parser. -/
-theorem undefused_transparent (m : Mode) (b : BaseClass) (ch : Chan) (mr : Bool) (scanEnd bufLen : Nat)
-    (h : isDefused m b = false) : outcome (plan m b ch) mr scanEnd bufLen = .parsed := by
-  rw [(plan_noDefuse_iff m b ch).mpr h]; rfl
+theorem undefused_transparent (v : Variant) (m : Mode) (b : BaseClass) (ch : Chan) (mr : Bool) (scanEnd bufLen : Nat)
+    (h : isDefused m b = false) : outcome (plan v m b ch) mr scanEnd bufLen = .parsed := by
+  rw [(plan_noDefuse_iff v m b ch).mpr h]; rfl
 
 /-
-  FULL STATEMENT (second sentence of the property), false for the code as it is:
-    theorem clean_parsed : isDefused m b = true → outcome (plan m b ch) false scanEnd bufLen = .parsed
+  FULL STATEMENT (second sentence of the property), false for the code as it is (`Variant.current`):
+    theorem clean_parsed : isDefused m b = true → outcome (plan v m b ch) false scanEnd bufLen = .parsed
   It fails on two kinds of channels, both as safe refusals (see the counter-examples below, and
   `clean_parsed_iff` for the exact characterisation).  Non-seekable raw streams behave like buffered
-  ones since fix 1d3fb41 (former finding C13-F1).
+  ones since fix 1d3fb41 (former finding C13-F1).  With both repairs (notes/fixes/C13-defusable-reader-
+  grows-during-scan.patch, C13-text-stream-defusable-reader.patch) it holds for every stream of the io
+  class hierarchy: `clean_parsed_repaired`.
 -/
 
 /-- decidable guard: the channels on which a clean document survives defusing -/
 def cleanGuard (pl : Plan) (scanEnd bufLen : Nat) : Bool :=
-  pl != .refuse && ((pl != .wrapBuffered && pl != .wrapRaw) || decide (scanEnd ≤ bufLen))
+  pl != .refuse && ((pl != .wrapBuffered && pl != .wrapRaw && pl != .wrapText) || decide (scanEnd ≤ bufLen))
 
 /-- Documents without entity declarations are handed to the parser (from the start of the stream,
     see `scan_then_rewind`) on every channel satisfying the guard. -/
-theorem clean_parsed_partial (m : Mode) (b : BaseClass) (ch : Chan) (scanEnd bufLen : Nat)
-    (hg : cleanGuard (plan m b ch) scanEnd bufLen = true) :
-    outcome (plan m b ch) false scanEnd bufLen = .parsed := by
+theorem clean_parsed_partial (v : Variant) (m : Mode) (b : BaseClass) (ch : Chan) (scanEnd bufLen : Nat)
+    (hg : cleanGuard (plan v m b ch) scanEnd bufLen = true) :
+    outcome (plan v m b ch) false scanEnd bufLen = .parsed := by
   unfold cleanGuard at hg
-  cases hpl : plan m b ch <;> simp_all [outcome]
+  cases hpl : plan v m b ch <;> simp_all [outcome]
 
 /-- C13-F2 on a raw stream: same buffer edge -/
 theorem clean_refused_counterexample_raw_bigprolog :
-    outcome (plan .always .absent ⟨false, .raw, false, false⟩) false 81820 65536 = .oserror := by decide
+    outcome (plan .current .always .absent ⟨false, .raw, false, false⟩) false 81820 65536 = .oserror := by decide
 
 /-- C13-F2: a clean document on a non-seekable buffered stream whose first start tag lies beyond
     the 64 KiB buffer is refused -/
 theorem clean_refused_counterexample_bigprolog :
-    outcome (plan .always .absent ⟨false, .buffered, false, false⟩) false 81820 65536 = .oserror := by decide
+    outcome (plan .current .always .absent ⟨false, .buffered, false, false⟩) false 81820 65536 = .oserror := by decide
 
-/-- C13-F3: any document on a non-seekable stream that is neither raw nor buffered (a text stream)
-    is refused -/
+/-- C13-F3: any document on a non-seekable text stream is refused on the tree as it is -/
 theorem clean_refused_counterexample_text :
-    outcome (plan .always .absent ⟨false, .other, false, false⟩) false 100 65536 = .oserror := by decide
+    outcome (plan .current .always .absent ⟨false, .text, false, false⟩) false 100 65536 = .oserror := by decide
 
-example : cleanGuard (plan .always .absent ⟨true, .buffered, false, false⟩) 100 65536 = true := by decide
+example : cleanGuard (plan .current .always .absent ⟨true, .buffered, false, false⟩) 100 65536 = true := by decide
 example : isDefused .nonlocal .absent = true := by decide
+example : plan .repaired .always .absent ⟨false, .text, false, false⟩ = .wrapText := by decide
 
 /-! ## DefusableReader is a transparent, partially rewindable view of the byte stream -/
 
@@ -121,7 +130,7 @@ def Agrees (l ref : List Out) : Prop := l = ref ∨ ∃ k, l = ref.take k ++ [.o
 
 /-- Refinement: any script of read/seek/tell operations on the reader built over stream `s`
     behaves exactly like the same script on the byte list `s` with a cursor, up to the first
-    OS error (for every stream, buffer size and script — unbounded). -/
+    OS error (for every stream, buffer size and script — unbounded; growing buffer or not). -/
 theorem run_refines (s : List Nat) (ops : List Op) (r : Reader) (h : Inv s r) :
     Agrees (r.run ops) (absRun s ops r.pos) := by
   induction ops generalizing r with
@@ -129,7 +138,7 @@ theorem run_refines (s : List Nat) (ops : List Op) (r : Reader) (h : Inv s r) :
   | cons op ops ih =>
     cases op with
     | read n =>
-      obtain ⟨h1, h2, h3, -⟩ := read_refines h n
+      obtain ⟨h1, h2, h3, -, -⟩ := read_refines h n
       have := ih (r.read n).2 h2
       cases n with
       | some k =>
@@ -158,7 +167,7 @@ theorem run_refines (s : List Nat) (ops : List Op) (r : Reader) (h : Inv s r) :
       cases hs : r.seek p with
       | none => exact Or.inr ⟨0, by simp⟩
       | some r' =>
-        obtain ⟨h1, h2, -⟩ := seek_refines h hs
+        obtain ⟨h1, h2, -, -⟩ := seek_refines h hs
         simp only
         have := ih r' h1
         rw [h2] at this
@@ -167,16 +176,16 @@ theorem run_refines (s : List Nat) (ops : List Op) (r : Reader) (h : Inv s r) :
         · exact Or.inr ⟨j + 1, by rw [e]; simp⟩
 
 /-- The reader built by `defuse_xml` satisfies the invariant for whatever the stream contains. -/
-theorem init_refines (size : Nat) (s : List Nat) (ops : List Op) :
-    Agrees ((Reader.init size s).run ops) (absRun s ops 0) :=
-  run_refines s ops _ (init_inv size s)
+theorem init_refines (g : Bool) (size : Nat) (s : List Nat) (ops : List Op) :
+    Agrees ((Reader.init g size s).run ops) (absRun s ops 0) :=
+  run_refines s ops _ (init_inv g size s)
 
-/-- After a scan that stayed within the initial buffer, `seek(0)` succeeds and the parser then
+/-- After a scan that stayed within the buffer, `seek(0)` succeeds and the parser then
     receives exactly the original byte stream. -/
 theorem scan_then_rewind (s : List Nat) (r : Reader) (h : Inv s r) (hp : r.pos ≤ r.buf.length) :
     ∃ r', r.seek 0 = some r' ∧ (r'.read none).1 = s := by
-  refine ⟨{ r with pos := 0 }, by simp [Reader.seek]; omega, ?_⟩
-  have hs : r.seek 0 = some { r with pos := 0 } := by simp [Reader.seek]; omega
+  have hs : r.seek 0 = some { r with pos := 0, grow := false } := by simp [Reader.seek]; omega
+  refine ⟨_, hs, ?_⟩
   obtain ⟨hi, -, -⟩ := seek_refines h hs
   have := (read_refines hi none).1
   simpa using this
@@ -188,65 +197,173 @@ theorem seek_refused_iff (r : Reader) (p : Nat) :
   unfold Reader.seek
   by_cases h1 : r.buf.length < p <;> by_cases h2 : r.buf.length < r.pos <;> simp [h1, h2]
 
-example : (Reader.init 8192 [1, 2, 3]).run [.read (some 2), .seek 0, .read none] =
+example : (Reader.init false 8192 [1, 2, 3]).run [.read (some 2), .seek 0, .read none] =
     [.data [1, 2], .at 0, .data [1, 2, 3]] := by decide
+
+/-! ## exactness of the rewind: the parser is fed EXACTLY the bytes the scan saw
+
+  What seeded change C13-3 (`elif pos > self._buffer_size` instead of `self._pos` in
+  DefusableReader.seek) broke, stated for the reader model and proved for both variants of the
+  reader (fixed buffer / buffer growing until the first seek).  `ks` = the sizes of the reads of the
+  scan (pulldom blocks), `ms` = the sizes of the reads of the parser after the rewind. -/
+
+/-- **rewind_exact.**  On the reader `defuse_xml` builds over ANY stream `s` (any initial buffer
+    size, growing or not): whatever reads the scan makes, if the rewind `seek(0)` succeeds then
+    (1) the scan was fed exactly a prefix of the stream, (2) whatever block sizes the parser then
+    uses it is fed exactly a prefix of the stream — the two byte sequences coincide as far as both
+    go — and (3) reading to the end delivers the whole stream: nothing skipped, nothing repeated. -/
+theorem rewind_exact (s : List Nat) (g : Bool) (size : Nat) (ks ms : List Nat) (r1 : Reader)
+    (hs : ((Reader.init g size s).readMany ks).2.seek 0 = some r1) :
+    ((Reader.init g size s).readMany ks).1 = s.take ks.sum ∧
+    (r1.readMany ms).1 = s.take ms.sum ∧ (r1.read none).1 = s := by
+  obtain ⟨h1, h2, -, -⟩ := readMany_refines ks (init_inv g size s)
+  obtain ⟨i1, i2, -, -⟩ := seek_refines h2 hs
+  obtain ⟨j1, -, -, -⟩ := readMany_refines ms i1
+  refine ⟨by simpa [Reader.init] using h1, by simpa [i2] using j1, ?_⟩
+  have := (read_refines i1 none).1
+  simpa [i2] using this
+
+/-- … in particular, a parser that reads with the same block sizes as the scan receives the very
+    same bytes. -/
+theorem rewind_same_blocks (s : List Nat) (g : Bool) (size : Nat) (ks : List Nat) (r1 : Reader)
+    (hs : ((Reader.init g size s).readMany ks).2.seek 0 = some r1) :
+    (r1.readMany ks).1 = ((Reader.init g size s).readMany ks).1 := by
+  obtain ⟨h1, h2, -⟩ := rewind_exact s g size ks ks r1 hs
+  rw [h1, h2]
+
+/-- **rewind_exact_any_history.**  The same for EVERY read/seek/tell history of the reader (not
+    only a sequential scan): if the history raised no OS error and the rewind succeeds, every
+    later script behaves as on the original stream from position 0 (up to a later OS error),
+    block reads deliver prefixes of the stream and reading to the end delivers all of it. -/
+theorem rewind_exact_any_history (s : List Nat) (g : Bool) (size : Nat) (hist : List Op) (r r1 : Reader)
+    (he : (Reader.init g size s).exec hist = some r) (hs : r.seek 0 = some r1) :
+    (∀ ms, (r1.readMany ms).1 = s.take ms.sum) ∧ (r1.read none).1 = s ∧
+    ∀ ops, Agrees (r1.run ops) (absRun s ops 0) := by
+  have hi := exec_inv hist (init_inv g size s) he
+  obtain ⟨i1, i2, -, -⟩ := seek_refines hi hs
+  refine ⟨fun ms => ?_, ?_, fun ops => ?_⟩
+  · have := (readMany_refines ms i1).1
+    simpa [i2] using this
+  · have := (read_refines i1 none).1
+    simpa [i2] using this
+  · have := run_refines s ops r1 i1
+    rwa [i2] at this
+
+/-- The guard that seeded change C13-3 replaced is necessary: with `seekSeeded` (the test on the
+    target position instead of the current one) a reader that satisfies the invariant and has read
+    beyond its buffer rewinds "successfully" and then delivers a stream with a gap. -/
+example : Inv [1, 2, 3] ⟨[1], [], 3, false⟩ ∧
+    (Reader.seekSeeded ⟨[1], [], 3, false⟩ 0).map (fun r => (r.read none).1) = some [1] ∧
+    Reader.seek ⟨[1], [], 3, false⟩ 0 = none := by
+  refine ⟨⟨by decide, by decide, by decide⟩, by decide, by decide⟩
+
+example : ((Reader.init true 8192 [1, 2, 3, 4]).readMany [3]).2.seek 0 =
+    some ⟨[1, 2, 3, 4], [], 0, false⟩ := by decide
+
+/-- **grow_scan_never_refused** (the repair of C13-F2).  A reader whose buffer grows until the first
+    seek can always be rewound after a sequential scan, however far the scan read: the refusal of
+    `scan_rewind_refused_iff` is gone, the exactness of `rewind_exact` stays. -/
+theorem grow_scan_never_refused (s : List Nat) (size : Nat) (ks : List Nat) :
+    ∃ r1, ((Reader.init true size s).readMany ks).2.seek 0 = some r1 ∧ (r1.read none).1 = s := by
+  obtain ⟨-, h2, -, h4⟩ := readMany_refines ks (init_inv true size s)
+  have hg : ((Reader.init true size s).readMany ks).2.grow = true := by rw [h4]; rfl
+  exact scan_then_rewind s _ h2 (h2.2.2 hg)
 
 /-! ## the second sentence, with the scan end predicted instead of measured -/
 
 /-- The scan of `k` blocks followed by `seek(0)` on the reader that `defuse_xml` builds over ANY
-    stream `s` fails exactly when the stream is longer than the 64 KiB buffer and the scan read
-    beyond it. -/
-theorem scan_rewind_refused_iff (s : List Nat) (k : Nat) :
-    ((Reader.init bufferSize s).readBlocks k).seek 0 = none ↔
-      bufferSize < s.length ∧ bufferSize < k * blockSize := by
-  have hi := init_inv bufferSize s
-  have hp : (Reader.init bufferSize s).pos ≤ s.length := by simp [Reader.init]
-  obtain ⟨-, h2, h3⟩ := readBlocks_refines k hi hp
-  rw [seek_refused_iff, h2, h3]
-  simp [Reader.init, bufferSize, blockSize]
-  omega
+    stream `s` fails exactly when the reader has the fixed buffer, the stream is longer than the
+    64 KiB buffer and the scan read beyond it. -/
+theorem scan_rewind_refused_iff (g : Bool) (s : List Nat) (k : Nat) :
+    ((Reader.init g bufferSize s).readBlocks k).seek 0 = none ↔
+      g = false ∧ bufferSize < s.length ∧ bufferSize < k * blockSize := by
+  have hi := init_inv g bufferSize s
+  have hp : (Reader.init g bufferSize s).pos ≤ s.length := by simp [Reader.init]
+  obtain ⟨-, h2, -, h4⟩ := readBlocks_refines k hi hp
+  rw [seek_refused_iff, h4, h2]
+  cases g <;> simp [Reader.init, bufferSize, blockSize] <;> omega
+
+/-- the position of the reader and the length of its buffer when the scan stops are the two
+    numbers the outcome function compares (and the harness records at the real `seek(0)`) -/
+theorem scan_state (g : Bool) (s : List Nat) (tagEnd : Nat) :
+    ((Reader.init g bufferSize s).readBlocks (blocksFor tagEnd)).pos = scanEndOf s.length tagEnd ∧
+    ((Reader.init g bufferSize s).readBlocks (blocksFor tagEnd)).buf.length = bufLenAfter g s.length tagEnd := by
+  have hi := init_inv g bufferSize s
+  have hp : (Reader.init g bufferSize s).pos ≤ s.length := by simp [Reader.init]
+  obtain ⟨-, h2, -, h4⟩ := readBlocks_refines (blocksFor tagEnd) hi hp
+  rw [h4, h2]
+  cases g <;> simp [Reader.init, bufferSize, scanEndOf, bufLenAfter, bufLenOf] <;> omega
 
 /-- `outcomeDoc` compares exactly the two quantities of the reader: position after the scan and
-    length of the initial buffer. -/
-theorem outcomeDoc_reader (s : List Nat) (tagEnd : Nat) :
-    ((Reader.init bufferSize s).readBlocks (blocksFor tagEnd)).seek 0 = none ↔
-      bufLenOf s.length < scanEndOf s.length tagEnd := by
-  rw [scan_rewind_refused_iff]
-  simp [bufLenOf, scanEndOf, bufferSize]
+    length of the buffer. -/
+theorem outcomeDoc_reader (g : Bool) (s : List Nat) (tagEnd : Nat) :
+    ((Reader.init g bufferSize s).readBlocks (blocksFor tagEnd)).seek 0 = none ↔
+      bufLenAfter g s.length tagEnd < scanEndOf s.length tagEnd := by
+  rw [seek_refused_iff, (scan_state g s tagEnd).1, (scan_state g s tagEnd).2]
   omega
 
 /-- Exact characterisation of the second sentence: when defusing applies, a document without
     entity declarations reaches the parser iff the channel is not the refusing one and, on
-    non-seekable raw/buffered streams, the document fits the 64 KiB buffer or its first start tag
-    ends within the first four blocks (65456 bytes). -/
-theorem clean_parsed_iff (m : Mode) (b : BaseClass) (ch : Chan) (total tagEnd : Nat)
+    non-seekable streams that go through a replay reader, the reader grows, or the document fits
+    the 64 KiB buffer, or its first start tag ends within the first four blocks (65456 bytes). -/
+theorem clean_parsed_iff (v : Variant) (m : Mode) (b : BaseClass) (ch : Chan) (total tagEnd : Nat)
     (h : isDefused m b = true) :
-    outcomeDoc (plan m b ch) false total tagEnd = .parsed ↔
-      plan m b ch ≠ .refuse ∧
-      ((plan m b ch = .wrapRaw ∨ plan m b ch = .wrapBuffered) →
-        total ≤ bufferSize ∨ tagEnd ≤ 4 * blockSize) := by
-  have hp : plan m b ch ≠ .noDefuse := fun e => by have := (plan_noDefuse_iff m b ch).mp e; simp [h] at this
+    outcomeDoc v (plan v m b ch) false total tagEnd = .parsed ↔
+      plan v m b ch ≠ .refuse ∧
+      ((plan v m b ch).wraps = true →
+        growOf v (plan v m b ch) = true ∨ total ≤ bufferSize ∨ tagEnd ≤ 4 * blockSize) := by
+  have hp : plan v m b ch ≠ .noDefuse := fun e => by have := (plan_noDefuse_iff v m b ch).mp e; simp [h] at this
   have key : bufLenOf total < scanEndOf total tagEnd ↔ bufferSize < total ∧ 4 * blockSize < tagEnd := by
     simp only [bufLenOf, scanEndOf, blocksFor, bufferSize, blockSize]
     omega
-  cases hpl : plan m b ch <;> simp_all [outcomeDoc, outcome] <;> omega
+  have key2 : ¬ (max (bufLenOf total) (scanEndOf total tagEnd) < scanEndOf total tagEnd) := by omega
+  cases hpl : plan v m b ch <;> simp only [outcomeDoc, outcome, Plan.wraps, growOf, bufLenAfter] <;> try simp_all
+  · by_cases hg : v.growBuf = true <;> simp [hg, key, key2] <;> omega
+  · by_cases hg : v.growBuf = true <;> simp [hg, key, key2] <;> omega
+  · by_cases hg : v.growText = true <;> simp [hg, key, key2] <;> omega
 
 /-- every document of at most 64 KiB without entity declarations is parsed on every channel
     except the refusing one -/
-theorem clean_small_parsed (m : Mode) (b : BaseClass) (ch : Chan) (total tagEnd : Nat)
-    (h : isDefused m b = true) (hr : plan m b ch ≠ .refuse) (hs : total ≤ bufferSize) :
-    outcomeDoc (plan m b ch) false total tagEnd = .parsed :=
-  (clean_parsed_iff m b ch total tagEnd h).mpr ⟨hr, fun _ => Or.inl hs⟩
+theorem clean_small_parsed (v : Variant) (m : Mode) (b : BaseClass) (ch : Chan) (total tagEnd : Nat)
+    (h : isDefused m b = true) (hr : plan v m b ch ≠ .refuse) (hs : total ≤ bufferSize) :
+    outcomeDoc v (plan v m b ch) false total tagEnd = .parsed :=
+  (clean_parsed_iff v m b ch total tagEnd h).mpr ⟨hr, fun _ => Or.inr (Or.inl hs)⟩
+
+/-- **clean_parsed_repaired** — the second sentence at full strength for the repaired readers: when
+    both replay readers grow, every document without entity declarations reaches the parser on
+    every channel that is not refused outright, whatever its length and the position of its
+    first start tag; with the text repair the refused channel is only a non-seekable object
+    outside the io class hierarchy without URL (`plan_refuse_iff`, `unwrappable_iff`). -/
+theorem clean_parsed_repaired (v : Variant) (m : Mode) (b : BaseClass) (ch : Chan) (total tagEnd : Nat)
+    (hb : v.growBuf = true) (ht : v.growText = true)
+    (h : isDefused m b = true) (hr : plan v m b ch ≠ .refuse) :
+    outcomeDoc v (plan v m b ch) false total tagEnd = .parsed := by
+  refine (clean_parsed_iff v m b ch total tagEnd h).mpr ⟨hr, fun hw => Or.inl ?_⟩
+  cases hpl : plan v m b ch <;> simp_all [Plan.wraps, growOf]
+
+/-- … and on every stream of the io class hierarchy (binary or text, seekable or not) the repaired
+    tree parses every clean document when defusing applies -/
+theorem clean_parsed_repaired_streams (m : Mode) (b : BaseClass) (ch : Chan) (total tagEnd : Nat)
+    (h : isDefused m b = true) (hio : ch.io ≠ .other) :
+    outcomeDoc .repaired (plan .repaired m b ch) false total tagEnd = .parsed := by
+  refine clean_parsed_repaired .repaired m b ch total tagEnd rfl rfl h ?_
+  intro hr
+  obtain ⟨-, -, -, hw⟩ := (plan_refuse_iff .repaired m b ch).mp hr
+  rcases (unwrappable_iff .repaired ch.io).mp hw with e | ⟨-, e⟩
+  · exact hio e
+  · simp [Variant.repaired] at e
 
 /-- C13-F2 with the numbers of the replayed witness (payload `big-comment-clean` as an instance:
-    70036 bytes, first start tag ends at offset 70031) -/
+    70036 bytes, first start tag ends at offset 70031); the repaired reader parses it -/
 theorem clean_refused_counterexample_doc :
-    outcomeDoc (plan .always .absent ⟨false, .buffered, false, false⟩) false 70036 70031 = .oserror ∧
-    outcomeDoc (plan .always .absent ⟨false, .raw, false, false⟩) false 70036 70031 = .oserror := by
+    outcomeDoc .current (plan .current .always .absent ⟨false, .buffered, false, false⟩) false 70036 70031 = .oserror ∧
+    outcomeDoc .current (plan .current .always .absent ⟨false, .raw, false, false⟩) false 70036 70031 = .oserror ∧
+    outcomeDoc .repaired (plan .repaired .always .absent ⟨false, .buffered, false, false⟩) false 70036 70031 = .parsed := by
   decide
 
-example : outcomeDoc (plan .always .absent ⟨false, .raw, false, false⟩) false 70036 30 = .parsed := by decide
-example : scanEndOf 70036 70031 = 70036 ∧ bufLenOf 70036 = 65536 := by decide
+example : outcomeDoc .current (plan .current .always .absent ⟨false, .raw, false, false⟩) false 70036 30 = .parsed := by decide
+example : scanEndOf 70036 70031 = 70036 ∧ bufLenOf 70036 = 65536 ∧ bufLenAfter true 70036 70031 = 70036 := by decide
+example : outcomeDoc .repaired (plan .repaired .always .absent ⟨false, .text, false, false⟩) false 70036 70031 = .parsed := by decide
 
 /-! ## the prolog grammar: what the handlers of the safe parser react to -/
 
@@ -395,17 +512,86 @@ def samplePrology : Prolog :=
 example : samplePrology.wf = true ∧ regular samplePrology = true ∧
     classify (samplePrology.render ++ [60, 114, 47, 62]) = .entity [112, 101] := by decide +kernel
 
+/-- a prolog with one entity of each kind and an external identifier -/
+def samplePrologyEv : Prolog :=
+  { bom := false, xmlDecl := none, misc1 := [],
+    doctype := some ⟨[114], some (.system ⟨.dq, [100]⟩),
+      some [.entity false [101] (.value ⟨.dq, [118]⟩),
+            .entity false [117] (.ndata (.system ⟨.dq, [103]⟩) [110]),
+            .entity false [120] (.ext (.system ⟨.dq, [102]⟩)),
+            .peRef [112],
+            .entity false [122] (.value ⟨.dq, [119]⟩)]⟩, misc2 := [] }
+
+/-! ## the event model: refusal at the first thing the parser would report; nothing expanded or
+      fetched where no handler is reached (what IS guaranteed for C13-F4 / C13-F5) -/
+
+/-- **scan_verdict_is_first_event.**  The verdict of the scan is read off the FIRST event of the
+    prolog: the handlers of the safe parser raise at the first entity declaration the parser
+    processes, or at the request for the external subset — before any later event. -/
+theorem scan_verdict_is_first_event (p : Prolog) : firstHandler p = verdictOfEvents (prologEvents p) := by
+  unfold firstHandler prologEvents XsVerif.Prolog.Prolog.liveEnts XsVerif.Prolog.Prolog.extRequested
+  cases hd : p.doctype with
+  | none => rfl
+  | some d =>
+    simp only [firstLive_eq_head]
+    cases hl : XsVerif.Prolog.liveEnts p.standalone true (d.subset.getD []) with
+    | nil => by_cases hx : (d.ext.isSome && !p.standalone) = true <;> simp [verdictOfEvents, hx]
+    | cons e es => simp [verdictOfEvents]
+
+/-- **scan_refuses_iff.**  For every prolog of the grammar: the scan of the rendered document
+    reaches a handler (the document is refused where defusing applies) iff the internal subset
+    contains an entity declaration that the parser processes, or the DOCTYPE has an external
+    identifier and the document is not standalone="yes" — i.e. iff the parser would report
+    anything at all. -/
+theorem scan_refuses_iff (p : Prolog) (root : Bytes) (hwf : p.wf = true) (hr : startsTag root = true) :
+    classify (p.render ++ root) ≠ .clean ↔ p.liveEnts ≠ [] ∨ p.extRequested = true := by
+  rw [classify_render p root hwf hr, scan_verdict_is_first_event]
+  unfold prologEvents
+  cases hl : p.liveEnts with
+  | nil => by_cases hx : p.extRequested = true <;> simp [verdictOfEvents, hx]
+  | cons e es =>
+    have := (entityVerdict_ne_clean e.2.1 e.2.2).1
+    simp [verdictOfEvents, this]
+
+/-- **clean_scan_nothing_hot** (C13-F4, C13-F5 restated).  Whenever the scan reaches no handler —
+    in particular for a standalone="yes" document with an external subset, and for entity
+    declarations that follow a reference to an unreadable parameter entity — the parser processes
+    no entity declaration, does not request the external subset, and EVERY entity reference in the
+    content is an "undefined entity" error: nothing is expanded, nothing is fetched. -/
+theorem clean_scan_nothing_hot (p : Prolog) (root : Bytes) (refs : List Bytes) (hwf : p.wf = true)
+    (hr : startsTag root = true) (hc : classify (p.render ++ root) = .clean) :
+    docEvents p refs = refs.map .undefinedRef := by
+  have h : ¬ (p.liveEnts ≠ [] ∨ p.extRequested = true) := fun hh => ((scan_refuses_iff p root hwf hr).mpr hh) hc
+  simp only [not_or, ne_eq, Decidable.not_not, Bool.not_eq_true] at h
+  simp [docEvents, prologEvents, refEvent, h.1, h.2, lookupGeneral]
+
+/-- … conversely: a document in which the parser would expand an entity or request the external
+    subset is always refused by the scan, and (scan_verdict_is_first_event) at the first event. -/
+theorem hot_implies_refused (p : Prolog) (root : Bytes) (refs : List Bytes) (e : PEv) (hwf : p.wf = true)
+    (hr : startsTag root = true) (he : e ∈ docEvents p refs) (hh : e.hot = true) :
+    classify (p.render ++ root) ≠ .clean := by
+  intro hc
+  rw [clean_scan_nothing_hot p root refs hwf hr hc] at he
+  obtain ⟨n, -, rfl⟩ := List.mem_map.mp he
+  simp [PEv.hot] at hh
+
+example : docEvents witnessStandalone [[101]] = [.undefinedRef [101]] ∧
+    docEvents witnessPeRef [[101]] = [.undefinedRef [101]] := by decide
+example : docEvents samplePrologyEv [[101], [117], [120], [122]] =
+    [.declared (.entity [101]), .declared (.unparsed [117]), .declared (.entity [120]), .extSubset,
+     .expanded [101], .binaryRef [117], .undefinedRef [120], .undefinedRef [122]] := by decide
+
 /-! ## first sentence, end to end: scanner verdict + decision table -/
 
 /-- When defusing applies, a regular prolog that declares an entity or references an external
     subset never reaches the parser, whatever the channel, the length of the document and the
     position of its first start tag. -/
-theorem defused_prolog_never_parsed (m : Mode) (b : BaseClass) (ch : Chan) (p : Prolog) (root : Bytes)
+theorem defused_prolog_never_parsed (v : Variant) (m : Mode) (b : BaseClass) (ch : Chan) (p : Prolog) (root : Bytes)
     (total tagEnd : Nat) (h : isDefused m b = true) (hwf : p.wf = true) (hr : startsTag root = true)
     (hg : regular p = true) (hm : mustRefuse p = true) :
-    outcomeDoc (plan m b ch) (classify (p.render ++ root) != .clean) total tagEnd ≠ .parsed := by
+    outcomeDoc v (plan v m b ch) (classify (p.render ++ root) != .clean) total tagEnd ≠ .parsed := by
   rw [classify_render_mustRefuse_partial p root hwf hr hg, hm]
-  exact defused_entities_never_parsed m b ch _ _ h
+  exact defused_entities_never_parsed v m b ch _ _ h
 
 /-! ## the included-schema role: every resource of a build goes through the scan -/
 
@@ -413,47 +599,47 @@ theorem defused_prolog_never_parsed (m : Mode) (b : BaseClass) (ch : Chan) (p : 
     overrides, imports, nested to any depth), every resource that is handed to the parser while
     defusing applies to it was scanned immediately before, and is not a document that must be
     refused. -/
-theorem every_parse_scanned (m : Mode) (f : Forest) (pre post : List Ev) (r : Res)
-    (ht : (build m f).1 = pre ++ .parsed r :: post) (hd : isDefused m r.base = true) :
+theorem every_parse_scanned (v : Variant) (m : Mode) (f : Forest) (pre post : List Ev) (r : Res)
+    (ht : (build v m f).1 = pre ++ .parsed r :: post) (hd : isDefused m r.base = true) :
     r.mustRefuse = false ∧ ∃ pre', pre = pre' ++ [.scanned r] := by
-  have h := build_ok m f none
+  have h := build_ok v m f none
   rw [ht] at h
   obtain ⟨h1, h2⟩ := okFrom_spec m r post hd pre none h
   exact ⟨h1, lastOr_some_iff pre _ h2⟩
 
 /-- a document that must be refused is never parsed in a build when defusing applies to it -/
-theorem build_refused_never_parsed (m : Mode) (f : Forest) (r : Res)
-    (hd : isDefused m r.base = true) (hm : r.mustRefuse = true) : .parsed r ∉ (build m f).1 := by
+theorem build_refused_never_parsed (v : Variant) (m : Mode) (f : Forest) (r : Res)
+    (hd : isDefused m r.base = true) (hm : r.mustRefuse = true) : .parsed r ∉ (build v m f).1 := by
   intro hmem
   obtain ⟨pre, post, ht⟩ := List.append_of_mem hmem
-  have := (every_parse_scanned m f pre post r ht hd).1
+  have := (every_parse_scanned v m f pre post r ht hd).1
   simp [hm] at this
 
 /-- the included-schema role: a refused include (redefine, override) aborts the build of the
     including schema with the forbidden-resource error; nothing after it is loaded -/
-theorem include_forbidden_raises (m : Mode) (r : Res) (c s : Forest)
-    (h : resOutcome m r = .forbidden) :
-    build m (.cons r .incl c s) = (resEvents m r, .raised .forbidden) := by
+theorem include_forbidden_raises (v : Variant) (m : Mode) (r : Res) (c s : Forest)
+    (h : resOutcome v m r = .forbidden) :
+    build v m (.cons r .incl c s) = (resEvents v m r, .raised .forbidden) := by
   simp [build, h, swallowed]
 
 /-- … and the main schema that includes it raises the same error -/
-theorem main_include_forbidden_raises (m : Mode) (r0 r : Res) (c s : Forest)
-    (h0 : resOutcome m r0 = .parsed) (h : resOutcome m r = .forbidden) :
-    (build m (.cons r0 .main (.cons r .incl c s) .nil)).2 = .raised .forbidden := by
+theorem main_include_forbidden_raises (v : Variant) (m : Mode) (r0 r : Res) (c s : Forest)
+    (h0 : resOutcome v m r0 = .parsed) (h : resOutcome v m r = .forbidden) :
+    (build v m (.cons r0 .main (.cons r .incl c s) .nil)).2 = .raised .forbidden := by
   simp [build, h0, h, swallowed]
 
 /-- characterisation of the other role: a refused *import* is not loaded either, but the loader
     turns the error into a warning and goes on (loaders.py:188-201) -/
-theorem import_forbidden_skipped (m : Mode) (r : Res) (c s : Forest)
-    (h : resOutcome m r = .forbidden) :
-    build m (.cons r .imp c s) = (resEvents m r ++ (build m s).1, (build m s).2) := by
+theorem import_forbidden_skipped (v : Variant) (m : Mode) (r : Res) (c s : Forest)
+    (h : resOutcome v m r = .forbidden) :
+    build v m (.cons r .imp c s) = (resEvents v m r ++ (build v m s).1, (build v m s).2) := by
   simp [build, h, swallowed]
 
 def resA : Res := ⟨0, .absent, ⟨true, .other, false, false⟩, false, 100, 40⟩
 def resB : Res := ⟨1, .loc, ⟨true, .buffered, false, true⟩, false, 100, 40⟩
 def resC : Res := ⟨2, .remote, ⟨false, .buffered, false, true⟩, true, 100, 40⟩
 
-example : build .remote (.cons resA .main (.cons resB .incl (.cons resC .incl .nil .nil) .nil) .nil) =
+example : build .current .remote (.cons resA .main (.cons resB .incl (.cons resC .incl .nil .nil) .nil) .nil) =
     ([.opened resA, .parsed resA, .opened resB, .parsed resB, .opened resC, .scanned resC,
       .failed resC .forbidden], .raised .forbidden) := by decide
 
